@@ -65,7 +65,9 @@ Fixpoint reads_offb (F : list val) (s : stmt) {struct s} : bool :=
 Definition swap_okb (a : acc) (x y : stmt) : bool :=
   match x with
   | SPure d e => reads_offb [d] y && negb (mem_nat d (stmt_binds y)) && noneb (pexp_vals e) (stmt_binds y)
+                 && noneb (stmt_uses x) (stmt_defs y)
   | SSetup a' _ _ fs => Nat.eqb a' a && quiet a y && noneb (map snd fs) (stmt_binds y)
+                        && noneb (stmt_uses x) (stmt_defs y)
   | _ => false
   end.
 
